@@ -36,7 +36,20 @@ func c20QueryxContext(db *sqlx.DB, ctx context.Context, query string, args ...in
 	c20Log = append(c20Log, query)
 	return nil, c20Err
 }
-func c20Begin(db *sql.DB) (*sql.Tx, error) { return nil, c20Err }
+
+// transactions and prepared statements succeed: the statement text is recorded,
+// bound arguments are data and never part of the text
+func c20Begin(db *sql.DB) (*sql.Tx, error) { return &sql.Tx{}, nil }
+func c20TxPrepare(tx *sql.Tx, query string) (*sql.Stmt, error) {
+	c20Log = append(c20Log, query)
+	return &sql.Stmt{}, nil
+}
+func c20StmtExec(st *sql.Stmt, args ...interface{}) (sql.Result, error) {
+	return driver.RowsAffected(1), nil
+}
+func c20StmtClose(st *sql.Stmt) error { return nil }
+func c20TxCommit(tx *sql.Tx) error    { return nil }
+func c20TxRollback(tx *sql.Tx) error  { return nil }
 
 // ---- native recording driver ----
 
@@ -46,10 +59,24 @@ type c20Conn struct{}
 func (c20Driver) Open(name string) (driver.Conn, error) { return c20Conn{}, nil }
 func (c20Conn) Prepare(q string) (driver.Stmt, error) {
 	c20Log = append(c20Log, q)
-	return nil, c20Err
+	return c20Stmt{}, nil
 }
 func (c20Conn) Close() error              { return nil }
-func (c20Conn) Begin() (driver.Tx, error) { return nil, c20Err }
+func (c20Conn) Begin() (driver.Tx, error) { return c20Tx{}, nil }
+
+type c20Tx struct{}
+
+func (c20Tx) Commit() error   { return nil }
+func (c20Tx) Rollback() error { return nil }
+
+type c20Stmt struct{}
+
+func (c20Stmt) Close() error  { return nil }
+func (c20Stmt) NumInput() int { return -1 }
+func (c20Stmt) Exec(args []driver.Value) (driver.Result, error) {
+	return driver.RowsAffected(1), nil
+}
+func (c20Stmt) Query(args []driver.Value) (driver.Rows, error) { return nil, c20Err }
 func (c20Conn) ExecContext(ctx context.Context, q string, args []driver.NamedValue) (driver.Result, error) {
 	c20Log = append(c20Log, q)
 	return nil, c20Err
